@@ -29,7 +29,7 @@ def main():
     dst = os.path.join(VERIF, 'seeded', name)
     os.makedirs(dst, exist_ok=True)
     for f in ('patch.diff', 'demo.py', 'notes.md'):
-        if os.path.exists(os.path.join(src, f)):
+        if os.path.exists(os.path.join(src, f)) and os.path.abspath(src) != os.path.abspath(dst):
             shutil.copy(os.path.join(src, f), os.path.join(dst, f))
     meta = {'name': name, 'property': prop, 'origin': 'sub-agent given only the property text and a scratch worktree',
             'base_commit': sh('git -C /repo rev-parse --short HEAD').stdout.strip()}
@@ -40,6 +40,8 @@ def main():
         # same relative layout the sub-agent worked in: <worktree>/<rel>/demo.py
         top = sh(f'git -C {src} rev-parse --show-toplevel').stdout.strip() or os.path.dirname(os.path.abspath(src.rstrip('/')))
         rel = os.path.relpath(os.path.abspath(src), top)
+        if os.path.abspath(top) == VERIF:
+            rel = 'seed/x'        # re-evaluation from the archived copy under /verif/seeded/
         os.makedirs(os.path.join(WT, rel), exist_ok=True)
         demo = os.path.join(WT, rel, 'demo.py')
         shutil.copy(os.path.join(dst, 'demo.py'), demo)
